@@ -37,6 +37,7 @@ type COp struct {
 	Ov    [3]string `json:"ov,omitempty"`    // event: Filter.FilterOperationOverrides in force (public, sensitive, secret): "" absent, none redact encrypt hmac
 	TF    []TField  `json:"tf,omitempty"`    // event: the payload's filtered values carry THESE class tags (struct tags / PointerTags of a Taggable map field)
 	V     bool      `json:"v,omitempty"`     // rotpayload: a RotV handed over BY VALUE (RotateWrapper through value receivers)
+	DP    []string  `json:"dp,omitempty"`    // event: container paths from the payload root down to a tagged leaf struct each: tokens m (map), l (slice), s (struct), p (pointer to struct), e.g. "m.m.s"
 	Again bool      `json:"again,omitempty"` // event: the very payload object of the previous event is sent once more
 	Nil   bool      `json:"nil,omitempty"`   // rotate: a nil Option leads the list
 	Rep   bool      `json:"rep,omitempty"`   // rotate: every option is given twice, a decoy value first (the last one wins); WithWrapper(nil) where no wrapper is set
@@ -829,7 +830,104 @@ func rotOpts(o COp) []encrypt.Option {
 	return opts
 }
 
+// ---------- values at every depth and along every container path ----------
+// CLeaf: the tagged struct at the end of a path
+type CLeaf struct {
+	E string `class:"sensitive"`
+	H []byte `class:"secret,hmac-sha256"`
+}
+
+// the value at the head of a path: m = map[string]interface{}{"k1": rest}, l = a slice of the rest, s / p = a struct (pointer to
+// a struct) with the rest as its only field, or - at the end of the path - the leaf itself
+func buildPath(toks []string, d []byte) reflect.Value {
+	if len(toks) == 1 {
+		leaf := CLeaf{E: string(d), H: append([]byte{}, d...)}
+		if toks[0] == "p" {
+			return reflect.ValueOf(&leaf)
+		}
+		return reflect.ValueOf(leaf)
+	}
+	in := buildPath(toks[1:], d)
+	switch toks[0] {
+	case "m":
+		return reflect.ValueOf(map[string]interface{}{"k1": in.Interface()})
+	case "l":
+		return reflect.Append(reflect.MakeSlice(reflect.SliceOf(in.Type()), 0, 1), in)
+	}
+	st := reflect.New(reflect.StructOf([]reflect.StructField{{Name: "F1", Type: in.Type()}}))
+	st.Elem().Field(0).Set(in)
+	if toks[0] == "p" {
+		return st
+	}
+	return st.Elem()
+}
+
+func mkDeep(o COp) interface{} {
+	var vals []reflect.Value
+	var sf []reflect.StructField
+	for i, path := range o.DP {
+		v := buildPath(strings.Split(path, "."), dataPool[o.Data[i%len(o.Data)]])
+		vals = append(vals, v)
+		sf = append(sf, reflect.StructField{Name: fmt.Sprintf("F%d", i+1), Type: v.Type()})
+	}
+	pv := reflect.New(reflect.StructOf(sf))
+	for i, v := range vals {
+		pv.Elem().Field(i).Set(v)
+	}
+	if o.EWI {
+		return &EWI{EvID: evID(o.EvID), Salt: poolBytes("salt", o.S), Info: poolBytes("info", o.I), P: pv.Interface()}
+	}
+	return pv.Interface()
+}
+
+func deepOut(o COp, p interface{}) (out []string) {
+	defer func() {
+		if recover() != nil {
+			out = nil
+		}
+	}()
+	if e, is := p.(*EWI); is {
+		p = e.P
+	}
+	root := reflect.ValueOf(p).Elem()
+	for i, path := range o.DP {
+		v := root.Field(i)
+		toks := strings.Split(path, ".")
+		for j, t := range toks {
+			for v.Kind() == reflect.Interface || v.Kind() == reflect.Ptr {
+				v = v.Elem()
+			}
+			if j == len(toks)-1 {
+				break
+			}
+			switch t {
+			case "m":
+				v = v.MapIndex(reflect.ValueOf("k1"))
+			case "l":
+				v = v.Index(0)
+			default:
+				v = v.Field(0)
+			}
+		}
+		for v.Kind() == reflect.Interface || v.Kind() == reflect.Ptr {
+			v = v.Elem()
+		}
+		out = append(out, v.Field(0).String(), string(v.Field(1).Bytes()))
+	}
+	return out
+}
+
+func outFieldsOf(o COp, p interface{}) []string {
+	if len(o.DP) > 0 {
+		return deepOut(o, p)
+	}
+	return outFields(p)
+}
+
 func mkPayload(o COp) interface{} {
+	if len(o.DP) > 0 {
+		return mkDeep(o)
+	}
 	d := func(i int) []byte { return append([]byte{}, dataPool[o.Data[i]]...) }
 	if o.TM {
 		return CTM{"hb": d(0), "hs": string(d(0)), "eb": d(1), "es": string(d(1))}
@@ -944,7 +1042,7 @@ func execCrypto(c CCase) cresult {
 			v, _ := taggedOut(o, out.Payload)
 			return v
 		}
-		return outFields(out.Payload)
+		return outFieldsOf(o, out.Payload)
 	}
 	// the bytes of a value (blob / mac / framed text) go to Coq for the framing check (Base64.v) while the case's budget lasts:
 	// long plaintexts and long key ids make long blobs, and the byte literals are what a shard's evaluation time goes into
@@ -1063,7 +1161,7 @@ func execCrypto(c CCase) cresult {
 					whole = taggedStep(n, o, ewi, in, out, err, cd, &res)
 				} else {
 					opLit = fmt.Sprintf("OEvent N %s %s", ewi, vals)
-					obs = observeEvent(fmt.Sprintf("step %d", n), out, err, dataOf, isHmac, cd, ship, &budget, &res)
+					obs = observeEvent(fmt.Sprintf("step %d", n), o, out, err, dataOf, isHmac, cd, ship, &budget, &res)
 				}
 				if rotated && out != nil {
 					res.nontriv = true
@@ -1122,6 +1220,15 @@ func eventModel(o COp) (ewi, vals string, dataOf []int, isHmac func(int) bool) {
 	}
 	dataOf = o.Data
 	isHmac = func(i int) bool { return i == 2 || i == 3 }
+	if len(o.DP) > 0 {
+		// per path the leaf's encrypted string and its HMAC-ed []byte
+		dataOf = nil
+		for i := range o.DP {
+			d := o.Data[i%len(o.Data)]
+			dataOf = append(dataOf, d, d)
+		}
+		isHmac = func(i int) bool { return i%2 == 1 }
+	}
 	if o.TM {
 		dataOf = []int{o.Data[0], o.Data[0], o.Data[1], o.Data[1]}
 		isHmac = func(i int) bool { return i < 2 }
@@ -1146,7 +1253,7 @@ func eventModel(o COp) (ewi, vals string, dataOf []int, isHmac func(int) bool) {
 }
 
 // what an event gave: error, consumed, or every value attributed among the candidates of the case
-func observeEvent(what string, out *el.Event, err error, dataOf []int, isHmac func(int) bool, cd cands, ship bool, budget *int, res *cresult) string {
+func observeEvent(what string, o COp, out *el.Event, err error, dataOf []int, isHmac func(int) bool, cd cands, ship bool, budget *int, res *cresult) string {
 	switch {
 	case err != nil && out == nil:
 		res.log = append(res.log, fmt.Sprintf("%s: error %v", what, err))
@@ -1154,7 +1261,7 @@ func observeEvent(what string, out *el.Event, err error, dataOf []int, isHmac fu
 	case out == nil:
 		return "CoConsumed"
 	}
-	fs := outFields(out.Payload)
+	fs := outFieldsOf(o, out.Payload)
 	items := make([]string, len(fs))
 	for i, s := range fs {
 		if i >= len(dataOf) {
@@ -1282,7 +1389,7 @@ func execRP(c CCase, cd cands) cresult {
 				obs = "CoPanic"
 				res.panics = append(res.panics, fmt.Sprintf("case %d (event started by accessor %d): %v", c.ID, k, sl.pan))
 			} else {
-				obs = observeEvent(fmt.Sprintf("event started by %s", []string{"Wrapper()", "HmacSalt()", "HmacInfo()"}[k]), sl.out, sl.err, dataOf, isHmac, cd, false, &budget, &res)
+				obs = observeEvent(fmt.Sprintf("event started by %s", []string{"Wrapper()", "HmacSalt()", "HmacInfo()"}[k]), sl.o, sl.out, sl.err, dataOf, isHmac, cd, false, &budget, &res)
 			}
 		case <-time.After(20 * time.Second):
 			obs = "CoPanic" // it never returned
@@ -1296,7 +1403,7 @@ func execRP(c CCase, cd cands) cresult {
 	func() {
 		defer func() { recover() }()
 		out, err := f.Process(ctx, &el.Event{Type: "t", CreatedAt: fixedTime, Payload: mkPayload(after)})
-		aobs = observeEvent("next event", out, err, adata, ahm, cd, false, &budget, &res)
+		aobs = observeEvent("next event", after, out, err, adata, ahm, cd, false, &budget, &res)
 	}()
 	res.nontriv = true
 	rpLit := fmt.Sprintf("{| rp_init := {| f_wrap := %s; f_salt := %s; f_info := %s |}; rp_rot := (%s, %s, %s); rp_consumed := %s;\n      rp_hooked := %s;\n      rp_after := %s; rp_after_obs := %s |}",
@@ -1614,6 +1721,77 @@ func (g *gen) taggedEvent() COp {
 	return o
 }
 
+// a container path from the payload root to a tagged leaf struct: m map, l slice, s struct, p pointer to struct; never a slice
+// directly in a slice (the filter does not look into slices of slices)
+func (g *gen) cPath() string {
+	n := 1 + g.r.Intn(6)
+	var toks []string
+	for len(toks) < n-1 {
+		t := []string{"m", "m", "l", "s", "p"}[g.r.Intn(5)]
+		if t == "l" && len(toks) > 0 && toks[len(toks)-1] == "l" {
+			continue
+		}
+		toks = append(toks, t)
+	}
+	return strings.Join(append(toks, []string{"s", "p"}[g.r.Intn(2)]), ".")
+}
+
+func (g *gen) deepEvent() COp {
+	r := g.r
+	o := COp{K: "event", S: -1, I: -1}
+	for n := 1 + r.Intn(4); n > 0; n-- {
+		o.DP = append(o.DP, g.cPath())
+		o.Data = append(o.Data, r.Intn(len(dataPool)))
+	}
+	if r.Chance(2, 3) {
+		o.EWI = true
+		o.EvID = 1 + r.Intn(len(evIDs)-1)
+		if r.Chance(1, 3) {
+			o.S = g.comp()
+		}
+		if r.Chance(1, 3) {
+			o.I = g.comp()
+		}
+	}
+	return o
+}
+
+// every container path up to three containers deep (and a few longer ones), without wrapper info, with an event id, with salt and
+// info of the event's own - before and after a rotation
+func deepGrid() []CCase {
+	var paths []string
+	var ext func(prefix []string, n int)
+	ext = func(prefix []string, n int) {
+		for _, leaf := range []string{"s", "p"} {
+			paths = append(paths, strings.Join(append(append([]string{}, prefix...), leaf), "."))
+		}
+		if n == 0 {
+			return
+		}
+		for _, t := range []string{"m", "l", "s", "p"} {
+			if t == "l" && len(prefix) > 0 && prefix[len(prefix)-1] == "l" {
+				continue
+			}
+			ext(append(append([]string{}, prefix...), t), n-1)
+		}
+	}
+	ext(nil, 3)
+	paths = append(paths, "m.m.m.m.s", "m.m.m.m.m.p", "l.p.m.l.s.m.p", "m.l.m.l.m.s", "p.p.p.m.m.s", "m.s.m.s.m.s.m.p")
+	var out []CCase
+	for i := 0; i < len(paths); i += 6 {
+		end := i + 6
+		if end > len(paths) {
+			end = len(paths)
+		}
+		dp := paths[i:end]
+		ev := func(ewi bool, id, s, in int) COp {
+			return COp{K: "event", DP: dp, Data: []int{1, 2, 9}, EWI: ewi, EvID: id, S: s, I: in}
+		}
+		out = append(out, CCase{Gen: "container-paths", Init: COp{W: 1, S: 1, I: 1}, Ops: []COp{ev(false, 0, -1, -1), ev(true, 1, -1, -1), {K: "rotpayload", W: 2, S: 2, I: -1}, ev(true, 2, 3, 3), ev(false, 0, -1, -1)}})
+	}
+	return out
+}
+
 // a rotation payload whose accessors start events on the same filter
 func (g *gen) rpCase() CCase {
 	r := g.r
@@ -1711,6 +1889,10 @@ func (g *gen) cryptoCase(n int) CCase {
 			c.Ops = append(c.Ops, COp{K: "rotpayload", W: r.Intn(nWrappers + 1), S: comp(), I: comp(), V: r.Chance(1, 4)})
 		default:
 			o := COp{K: "event", S: -1, I: -1, Data: []int{pick(), pick(), pick(), pick(), pick()}}
+			if r.Chance(1, 7) {
+				c.Ops = append(c.Ops, g.deepEvent())
+				continue
+			}
 			if c.Init.W > 0 && r.Chance(1, 5) {
 				c.Ops = append(c.Ops, g.taggedEvent())
 				if i+1 < n && r.Chance(1, 8) {
@@ -1744,7 +1926,7 @@ func (g *gen) cryptoCase(n int) CCase {
 			}
 			if r.Chance(1, 3) && i > 0 { // the same data again: determinism across events and rotations
 				for _, p := range c.Ops {
-					if p.K == "event" && p.SL == o.SL && len(p.TF) == 0 {
+					if p.K == "event" && p.SL == o.SL && len(p.TF) == 0 && len(p.DP) == 0 {
 						o.Data = append([]int{}, p.Data...)
 					}
 				}
@@ -1842,6 +2024,7 @@ func cryptoSpecials() []CCase {
 	out = append(out, cbGrid()...)
 	out = append(out, rpGrid()...)
 	out = append(out, taggedGrid()...)
+	out = append(out, deepGrid()...)
 	// the length alphabet: salt and info (on the filter through Rotate and through a rotation payload, and on the event), event id
 	// and key id of 1, 63, 64, 65, 127, 128, 129 and 1100 bytes; consecutive values share every byte of the shorter one, so each
 	// rotation from one to the next must change the digests of the same data
@@ -1870,7 +2053,7 @@ func cryptoSpecials() []CCase {
 
 func mainCrypto(out, prefix string, perShard, n int, corpus string, concOnly bool) {
 	initDataPool()
-	cf := &hc.CaseFile{Dir: out, Prefix: prefix, PerShard: perShard * 68 / 250, Type: "list ccase",
+	cf := &hc.CaseFile{Dir: out, Prefix: prefix, PerShard: perShard * 74 / 250, Type: "list ccase",
 		Header: "From Coq Require Import List NArith String.\nFrom Verif Require Import Tag Base64 Crypto Run_Crypto.\nImport ListNotations.\nOpen Scope string_scope.\nOpen Scope list_scope.",
 		Footer: "Definition M := Eval vm_compute in mismatches cases.\nPrint M."}
 	side, err := os.Create(out + "/" + prefix + ".jsonl")
@@ -1918,6 +2101,9 @@ func mainCrypto(out, prefix string, perShard, n int, corpus string, concOnly boo
 			stats["op:"+o.K]++
 			if o.K == "event" && o.EWI {
 				stats["op:event-with-wrapper-info"]++
+			}
+			if len(o.DP) > 0 {
+				stats["op:event-with-container-paths"]++
 			}
 			if len(o.TF) > 0 {
 				stats["op:event-with-tagged-values"]++
